@@ -400,7 +400,10 @@ func minimiseSet(sc setCase, vals []sval) setCase {
 	}
 	for changed := true; changed; {
 		changed = false
-		for i := len(cur.Path) - 1; i >= 1; i-- { // drop a segment
+		for i := len(cur.Path) - 1; i >= 0; i-- { // drop a segment
+			if i == 0 && (len(cur.Path) < 2 || cur.Path[1].IsIdx) {
+				continue // a path starts with a key
+			}
 			p := append(append([]seg{}, cur.Path[:i]...), cur.Path[i+1:]...)
 			if x, ok := withPath(p); ok && try(x) {
 				changed = true
